@@ -315,9 +315,15 @@ def do_finally(
 
         composite_disposable = CompositeDisposable()
         composite_disposable.add(OnDispose(was_invoked))
-        subscription = source.subscribe(
-            observer.on_next, on_error, on_completed, scheduler=scheduler
-        )
+        try:
+            subscription = source.subscribe(
+                observer.on_next, on_error, on_completed, scheduler=scheduler
+            )
+        except Exception:
+            # subscribing failed and the observer's on_error raised: nobody will
+            # ever get this disposable, so run the finally action here
+            composite_disposable.dispose()
+            raise
         composite_disposable.add(subscription)
 
         return composite_disposable
